@@ -197,7 +197,8 @@ pub fn check_text(text: &str) -> Outcome {
         }
         (Err(RefErr::IllSorted(m)), Ok(Some(_))) => Outcome::Fail { class: "accepted-illsorted".into(), what: format!("`{one_line}` is ill-sorted ({m}) but the reader accepts it") },
         (Err(RefErr::IllSorted(_)), Ok(None)) => Outcome::Skipped("illsorted-rejected".into()),
-        (Err(RefErr::IllSorted(_)), Err(_)) => Outcome::Skipped("illsorted-panicked".into()),
+        (Err(RefErr::IllSorted(_)), Err(p)) if is_marker_panic(&p) => Outcome::Skipped("illsorted-unsupported-op-marker".into()),
+        (Err(RefErr::IllSorted(m)), Err(p)) => Outcome::Fail { class: format!("panic-illsorted|{}", p.file()), what: format!("`{one_line}` is ill-sorted ({m}); the reader panics instead of rejecting it: {} ({})", p.msg, p.short_loc()) },
         (Err(e), Ok(Some(_))) => Outcome::Skipped(format!("outside-domain-{}-accepted", e.class())),
         (Err(e), Ok(None)) => Outcome::Skipped(format!("outside-domain-{}-rejected", e.class())),
         (Err(e), Err(_)) => Outcome::Skipped(format!("outside-domain-{}-panicked", e.class())),
@@ -775,6 +776,53 @@ pub fn illsorted_variants(text: &str) -> Vec<String> {
     out
 }
 
+/// Operand mutants: every operand id of every line replaced by the id of every other earlier node (and its
+/// negation when the original was negated). The reference decides which of them are still well-sorted
+/// (compared semantically) and which are ill-sorted (must be rejected).
+pub fn operand_variants(text: &str) -> Vec<String> {
+    let lines: Vec<&str> = text.lines().collect();
+    let mut node_ids: Vec<(usize, &str)> = vec![];
+    for (li, l) in lines.iter().enumerate() {
+        let t: Vec<&str> = l.split(' ').collect();
+        if t.len() > 2 && t[1] != "sort" && !matches!(t[1], "init" | "next" | "output" | "bad" | "constraint") {
+            node_ids.push((li, t[0]));
+        }
+    }
+    let mut out = vec![];
+    for (li, l) in lines.iter().enumerate() {
+        let t: Vec<&str> = l.split(' ').collect();
+        if t.len() < 3 || t[1] == "sort" {
+            continue;
+        }
+        let positions: Vec<usize> = match t[1] {
+            "output" | "bad" | "constraint" => vec![2],
+            "input" | "state" | "zero" | "one" | "ones" | "const" | "constd" | "consth" => vec![],
+            "slice" | "uext" | "sext" => vec![3],
+            "init" | "next" => vec![3, 4],
+            _ => (3..t.len()).collect(),
+        };
+        for p in positions {
+            if p >= t.len() || t[p].trim_start_matches('-').parse::<u64>().is_err() {
+                continue;
+            }
+            let neg = t[p].starts_with('-');
+            for (nl, nid) in node_ids.iter() {
+                if *nl >= li || *nid == t[p].trim_start_matches('-') {
+                    continue;
+                }
+                let mut t2: Vec<String> = t.iter().map(|x| x.to_string()).collect();
+                t2[p] = if neg { format!("-{nid}") } else { nid.to_string() };
+                let mut ls: Vec<String> = lines.iter().map(|x| x.to_string()).collect();
+                ls[li] = t2.join(" ");
+                let mut s = ls.join("\n");
+                s.push('\n');
+                out.push(s);
+            }
+        }
+    }
+    out
+}
+
 // ------------------------------------------------------------------ driver
 
 struct Stage {
@@ -859,6 +907,19 @@ pub fn run(opts: &Opts, rep: &Report) {
     let mut ill: Vec<String> = ill_bases.par_iter().chain(attach.par_iter()).flat_map(|b| illsorted_variants(b)).collect();
     ill.par_sort();
     ill.dedup();
+    // operand mutants of the state-attachment files (quick) and of every base file (thorough)
+    let mut opnd: Vec<String> = if thorough { ill_bases.par_iter().chain(attach.par_iter()).flat_map(|b| operand_variants(b)).collect() } else { attach.par_iter().flat_map(|b| operand_variants(b)).collect() };
+    opnd.par_sort();
+    opnd.dedup();
+    {
+        let n_ill = opnd.par_iter().filter(|t| matches!(btorref::parse(t), Err(RefErr::IllSorted(_)))).count();
+        let n_ok = opnd.par_iter().filter(|t| btorref::parse(t).is_ok()).count();
+        rep.add("operand_variants_ref_illsorted", n_ill as u64);
+        rep.add("operand_variants_ref_wellformed", n_ok as u64);
+        if n_ill < 100 || n_ok < 100 {
+            machinery_failure("C08 operand mutants: the reference finds fewer than 100 ill-sorted or fewer than 100 well-sorted ones");
+        }
+    }
     let mut bases = order_bases();
     if thorough {
         for i in instances(&[1, 3], &[], &ARRS, &[0, 2]).iter() {
@@ -926,7 +987,7 @@ pub fn run(opts: &Opts, rep: &Report) {
     }
     rep.note(
         "stages",
-        json!({"single": single.len(), "const": consts.len(), "attach": attach.len(), "chain": chains.len(), "order": orders.len(), "illsorted": ill.len(), "order_bases": bases.len()}),
+        json!({"single": single.len(), "const": consts.len(), "attach": attach.len(), "chain": chains.len(), "order": orders.len(), "illsorted": ill.len(), "operand_mutants": opnd.len(), "order_bases": bases.len()}),
     );
     for t in [&single[0], &chains[chains.len() / 2], &ill[ill.len() / 3]] {
         rep.sample(json!({"text": t}));
@@ -937,6 +998,7 @@ pub fn run(opts: &Opts, rep: &Report) {
         Stage { name: "attach", texts: attach },
         Stage { name: "order", texts: orders },
         Stage { name: "illsorted", texts: ill },
+        Stage { name: "operand-mutants", texts: opnd },
         Stage { name: "chain", texts: chains },
     ];
     let mut base = 0u64;
